@@ -10,6 +10,7 @@ runs against the real modulus-256 client."""
 import os, re, subprocess, json, shutil, glob
 import vlib
 
+EV_RE = re.compile(r'/\\ ev = \[(.*?)\]\n(?=/\\|\n|$)', re.S)
 ACT_RE = re.compile(r'/\\ act = \[(.*?)\]\n(?=/\\|\n|$)', re.S)
 GW_RE = re.compile(r'/\\ gw = \[(.*?)\]\n', re.S)
 
@@ -38,7 +39,12 @@ def parse_behaviour(path):
         fm = re.search(r'f \|-> \[(.*?)\]', rec, re.S)
         f = fm.group(1) if fm else ''
         g = GW_RE.search(st)
-        out.append(dict(n=fld(rec.replace(fm.group(0), '') if fm else rec, 'n'), g=fld(rec.replace(fm.group(0), '') if fm else rec, 'g', 0),
+        em = EV_RE.search(st + '\n')
+        evr = em.group(1) if em else ''
+        ev = dict(k=fld(evr, 'k', 'none'), t=fld(evr, 't', 0), svc=fld(evr, 'svc', ''), ch=fld(evr, 'ch', -1), seq=fld(evr, 'seq', -1),
+                  st=fld(evr, 'st', -1), s=fld(evr, 's', ''))
+        nm = re.search(r'/\\ now = (\d+)', st)
+        out.append(dict(now=int(nm.group(1)) if nm else 0, ev=ev, n=fld(rec.replace(fm.group(0), '') if fm else rec, 'n'), g=fld(rec.replace(fm.group(0), '') if fm else rec, 'g', 0),
                         svc=fld(f, 'svc', ''), ch=fld(f, 'ch', -1), seq=fld(f, 'seq', -1), st=fld(f, 'st', -1), pid=fld(f, 'pid', -1),
                         gwch=fld(g.group(1), 'ch', 0) if g else 0))
     return out
@@ -48,6 +54,7 @@ def project(acts, unit, consts, run_id, tag):
     """acts: parsed behaviour; unit: microseconds per model tick."""
     steps = [dict(op='new')]
     ticks = 0
+    choice = None    # instant of the first choice made inside the client (Go select among several ready cases / timers)
 
     def flush_ticks():
         nonlocal ticks
@@ -59,20 +66,39 @@ def project(acts, unit, consts, run_id, tag):
         if n == 'tick':
             ticks += 1
             continue
-        if n in ('internal', 'timer', 'take', 'new'):
+        if n == 'choice' and choice is None:
+            choice = a['now'] * unit
+        if n in ('internal', 'timer', 'take', 'new', 'choice'):
             continue
         flush_ticks()
         if n == 'send':
             steps.append(dict(op='send', g=a['g'], p=1000 + i))
         elif n == 'recv':
-            steps.append(dict(op='recv'))
+            steps.append(dict(op='recv1'))
         elif n == 'close':
             steps.append(dict(op='close', g=a['g']))
         elif n in ('c2g-deliver', 'g2c-deliver', 'c2g-lose', 'g2c-lose', 'c2g-dup', 'g2c-dup'):
             d, act = n.split('-')
             if d == 'c2g' and act == 'deliver' and a['svc'] == 'ConnReq':
                 steps.append(dict(op='gwpolicy', s='nextchan', n=a['gwch'] if a['gwch'] > 0 else 1))
-            steps.append(dict(op='net', dir=d, act=act, svc=a['svc'], i=0))
+            st = dict(op='net', dir=d, act=act, svc=a['svc'], i=0)
+            if a['svc'] in ('TunnelReq', 'TunnelRes') and a['seq'] >= 0:
+                st.update(q=a['seq'] + 1, mod=consts.get('M', 4))
+            if a['st'] >= 0:
+                st['qst'] = a['st'] + 1
+            if a['ch'] >= 0:
+                st['qch'] = a['ch'] + 1
+            steps.append(st)
+        elif n == 'c2g-fault':
+            mode = ('silent', 'err', 'foreign')[a['g']]
+            if a['svc'] == 'ConnStateReq':
+                steps.append(dict(op='gwpolicy', s='hb', act=mode, st=33))
+                steps.append(dict(op='net', dir='c2g', act='deliver', svc='ConnStateReq', i=0))
+                steps.append(dict(op='gwpolicy', s='hb', act='ok', st=33))
+            else:
+                steps.append(dict(op='gwpolicy', s='conn', act=dict(silent='silent', err='refuse', foreign='busy')[mode]))
+                steps.append(dict(op='net', dir='c2g', act='deliver', svc='ConnReq', i=0))
+                steps.append(dict(op='gwpolicy', s='conn', act='ok'))
         elif n == 'gwtele':
             steps.append(dict(op='gwtele', p=2000 + i))
         elif n == 'gwresend':
@@ -80,11 +106,15 @@ def project(acts, unit, consts, run_id, tag):
         elif n == 'gwgiveup':
             steps.append(dict(op='gwgiveup'))
         elif n == 'inject':
-            steps.append(dict(op='inject', svc=a['svc'], ch='own' if a['ch'] == 1 else 'other', rel=a['seq'], st=a['st'], p=3000 + i))
+            steps.append(dict(op='inject', svc=a['svc'], ch='own' if a['ch'] == 1 else 'other', rel=a['seq'], st=a['st'], p=3000 + i, base='ctr'))
     flush_ticks()
     cfg = dict(R=consts['R'] * unit, T=consts['T'] * unit, H=(consts['H'] * unit if consts.get('EnableHB') else 1_500_000_000),
                tcp=bool(consts.get('UseTCP')))
-    return dict(run=run_id, cfg=cfg, steps=steps, tag=tag)
+    # the observable client events the SPECIFICATION predicts for this behaviour (conformance comparison)
+    pred = [[a['ev']['t'] * unit // 1000, a['ev']['k'], a['ev']['svc'], a['ev']['ch'], a['ev']['seq'],
+             a['ev']['st'] if a['ev']['k'] != 'SendRet' else a['ev']['s']]
+            for a in acts if a['ev']['k'] in ('Out', 'In', 'SendRet', 'Recv', 'CloseRet')]
+    return dict(run=run_id, cfg=cfg, steps=steps, tag=tag, predicted=pred, choice=choice, pred_end=acts[-1]['now'] * unit if acts else 0)
 
 
 def read_consts(cfgpath):
